@@ -23,7 +23,8 @@ ASSUMPTIONS = ['a step that ends in the Undefined Instruction exception or NotIm
                'the 16-entry condition table below is transcribed from the ARM ARM (A8.3)']
 SHARD_TIMEOUT = {'quick': 900, 'thorough': 7200}
 
-CTXS = [('v6-pmsa-sec', 'off'), ('v7-pmsa-r', 'off'), ('v7-vmsa-sec', 'off'), ('v5-pmsa', 'off'), ('v6-pmsa-sec', 'mpu')]
+CTXS = [('v6-pmsa-sec', 'off'), ('v7-pmsa-r', 'off'), ('v7-vmsa-sec', 'off'), ('v5-pmsa', 'off'), ('v6-pmsa-sec', 'mpu'),
+        ('v7-vmsa-virt', 'off'), ('v4-pmsa', 'off')]
 
 
 # Thumb instructions that are UNPREDICTABLE anywhere inside an IT block (ARM ARM: "if InITBlock() then
